@@ -36,7 +36,15 @@ def rel_kinds(prefixes, ktest):
 STRUCT = ("I", "K", "B", "E")
 
 PROPS = {
+    "C19": {
+        "pure": [{"kinds": ["conv"], Q: 1500, T: 100000}],
+        "level_text": "Proof: the conversion is modelled as exact decimal-string arithmetic (the model's own digit functions); theorems c19_fund_to_nund_exact, c19_nund_to_fund_exact, c19_roundtrip_* hold for every numeral of any length; the real ConvertUndDenomination is compared with the model on boundary-heavy generated numerals every run and with an independent exact-rational oracle.",
+        "level_note": "Theorems are about the model; the tie to types/denom.go is differential (vpure conv). Inputs outside plain decimal numerals (signs, exponents, fractions) are outside the statement and skipped by the model. big.Rat is trusted.",
+        "assumptions": ["input is a plain decimal numeral digits[.digits]; nund inputs are integers"],
+    },
     "C18": {
+        "level_text": "Proof: key builders and the stream key parser are modelled over byte lists; injectivity, section/scan disjointness, big-endian order = numeric order and the stream-key round trip are proved for all 64-bit ids and all address lengths 1..255; section prefixes are regenerated from keys.go on every run; the real builders/parsers are compared with the model on boundary-exhaustive and random inputs.",
+        "level_note": "Theorems are about the model of the codecs; the tie is differential (vpure key/parse) plus regenerated prefixes. Store iteration order (ascending bytes) is the IAVL/cachekv contract and is assumed.",
         "pure": [{"kinds": ["key", "parse"], Q: 300, T: 20000}],
         "assumptions": ["addresses are 1..255 bytes (the SDK rejects longer ones in MustLengthPrefix: proved as c18_stream_key_rejects_long)",
                         "store iteration is ascending byte order of keys (IAVL/cachekv contract, outside the model)"],
